@@ -11,6 +11,7 @@ import (
 	"fmt"
 	"math/rand"
 	"strings"
+	"time"
 
 	"verifharness/vh"
 )
@@ -18,15 +19,15 @@ import (
 // ---------------- condition-variable queues: generators ----------------
 
 type condGen struct {
-	rnd      *rand.Rand
-	typ      string
-	kind     int
-	run      *condRun
-	nextItem int64
-	nextTid  int
-	maxThr   int
-	closed   bool
-	lastObs  *cObs
+	rnd         *rand.Rand
+	typ         string
+	kind        int
+	run         *condRun
+	nextItem    int64
+	nextTid     int
+	maxThr      int
+	closed      bool
+	lastObs     *cObs
 	usedSpecial map[int64]bool
 }
 
@@ -269,7 +270,7 @@ func (g *condGen) adds(m int, mode int) {
 	}
 }
 
-var condScenarios = []string{"random", "park-close", "park-add", "drain-after-close", "bound", "close-race", "steal", "tryclose", "add-close-burst", "add-close-burst", "park-add-nil", "park-add-nil", "anyway-full", "anyway-full"}
+var condScenarios = []string{"random", "park-close", "park-add", "drain-after-close", "bound", "close-race", "steal", "tryclose", "add-close-burst", "add-close-burst", "park-add-nil", "park-add-nil", "anyway-full", "anyway-full", "anyway-drain-park", "anyway-drain-park"}
 
 func (g *condGen) scenario(name string) {
 	rnd := g.rnd
@@ -416,6 +417,38 @@ func (g *condGen) scenario(name string) {
 		if g.kind == kMQ {
 			g.exec(cBatch{Lanes: [][]cOp{{{Op: lTryClear}}}})
 		}
+	case "anyway-drain-park":
+		// a full bounded list; the retrying add is started and seen asleep between two attempts (its pause is long
+		// here); consumers then DRAIN the list and k more PARK on the empty queue; the retry finds room: every parked
+		// consumer that may take the item must be woken
+		if g.kind == kSync {
+			g.random(6)
+			return
+		}
+		ctrl := g.kind == kMQ && g.run.cfg.CtrlMax > 0 && rnd.Intn(2) == 0
+		bound, addKind := g.run.cfg.ReqMax, lAdd
+		if ctrl {
+			bound, addKind = g.run.cfg.CtrlMax, lAddCtrl
+		}
+		var fill []cOp
+		for i := 0; i < bound; i++ {
+			fill = append(fill, cOp{Op: addKind, X: g.item()})
+		}
+		g.exec(cBatch{Lanes: [][]cOp{fill}})
+		k := 1 + rnd.Intn(3)
+		var las []cLaunch
+		for i := 0; i < bound+k; i++ {
+			if la, ok := g.launch(rnd.Intn(2) == 0); ok {
+				las = append(las, la)
+			}
+		}
+		g.exec(cBatch{Launches: las, LanesFirst: true,
+			Lanes: [][]cOp{{{Op: addKind, X: g.item(), Anyway: true, SleepUs: 15000 + rnd.Intn(10000)}}}})
+		// the rest of the parked consumers get their items from ordinary and retrying adds
+		g.adds(k, rnd.Intn(3))
+		if rnd.Intn(2) == 0 {
+			g.exec(cBatch{Lanes: [][]cOp{{{Op: lClose}}}})
+		}
 	case "add-close-burst":
 		// k >= 2 consumers parked, then an add immediately followed by Close, back to back from one goroutine: the
 		// consumer the add woke has usually not run when Close arrives, so Close finds a non-empty queue
@@ -481,7 +514,7 @@ func emitCond(e *vh.Env, g *condGen, scen string) {
 }
 
 func condReqMax(rnd *rand.Rand, scen string) int {
-	if scen == "bound" || scen == "anyway-full" {
+	if scen == "bound" || scen == "anyway-full" || scen == "anyway-drain-park" {
 		return 1 + rnd.Intn(3)
 	}
 	return []int{0, 0, 0, 1, 2, 3}[rnd.Intn(6)]
@@ -885,16 +918,24 @@ func main() {
 			// concentrate on the type whose class diverged
 			ft := strings.SplitN(e.Focus, "/", 2)[0]
 			types = []string{ft}
-			perType *= 3
+			perType *= 2
 		}
 		hist := map[string]int{}
 		stuckCases := 0
+		// the schedule classes stop after a bounded time even when the implementation is broken (every stuck call costs
+		// a 10 s bound); thorough runs are not cut
+		genDeadline := time.Now().Add(60 * time.Second)
+		if e.Search {
+			genDeadline = time.Now().Add(90 * time.Second)
+		} else if e.Thorough {
+			genDeadline = time.Now().Add(24 * time.Hour)
+		}
 		// once the implementation has left the model on many schedules the verdict is settled; consumers a broken
 		// queue never releases stay parked for the life of the process, so the run is cut short
 		diverged := 0
 		const maxDiverged = 24
 		for _, typ := range types {
-			for i := 0; i < perType && stuckCases < 2 && diverged < maxDiverged; i++ {
+			for i := 0; i < perType && stuckCases < 2 && diverged < maxDiverged && time.Now().Before(genDeadline); i++ {
 				if typ == "priq.PriQueue" {
 					scen := priScenarios[0]
 					if i%2 == 1 {
@@ -937,7 +978,10 @@ func main() {
 		if stuckCases == 0 {
 			runStress(e, types)
 		}
-		if (e.Thorough || e.Search) && stuckCases == 0 && diverged == 0 {
+		if stuckCases == 0 {
+			runRaces(e, types)
+		}
+		if e.Thorough && !e.Search && stuckCases == 0 && diverged == 0 {
 			n := 0
 			for _, typ := range condTypes {
 				if e.Search && e.Focus != "" && !strings.HasPrefix(e.Focus, typ+"/") {
